@@ -44,6 +44,9 @@ var (
 
 func (s Scaler) remapMinMax(min, max int64) (float64, float64) {
 	if max <= min {
+		if min == math.MaxInt64 {
+			min-- // keep a non-empty range without wrapping around
+		}
 		max = min + 1
 	}
 	return math.Floor(s.mapVal(float64(min))), math.Ceil(s.mapVal(float64(max)))
